@@ -8,7 +8,7 @@
    documented exclusions of DESIGN.md section 4.3.
 
    ===========================================================================================
-   STAGE 0 - DESIGN NOTE (architecture of the proof; the files are proofs/CompileCorrectJ1..J7)
+   STAGE 0 - DESIGN NOTE (architecture of the proof; the files are proofs/CompileCorrectJ0..J10)
    ===========================================================================================
    The new difficulty with respect to F3 and F2h: a collection runs at EVERY function return
    (OReturn / OReturnValue hand VM.roots = the whole stack ++ constants ++ globals ++ final_result
@@ -41,24 +41,39 @@
    roots) and final_result, i.e. it would have to be the machine.
 
    Above the collection-free machine the tower of F3 (CompileCorrectE..I) is redone with the heap
-   constructs of F2h added; no collector anywhere in it:
+   constructs of F2h added; no collector anywhere in it.  The files (proofs/CompileCorrectJ*.v):
+     J1  the collection-free machine `step_ng`, the relation `vsim` / `hle`, monotonicity of every
+         value-level function, the COLLECTION LEMMA `collect_hle`, the lockstep theorem
+         `gc_lockstep`, runs: `gc_unobservable_steps` (needs the address bound of the state reached:
+         the heap of `step_ng` only grows, `ng_alloc_mono`);
      J2  the intermediate evaluator `yeval` (F3's, keyed by the compiler state, activations = slot
          vectors, function table) extended with the output, literals through a literal policy,
          arrays / indexing / index assignment / builtins (value-level functions of H1), over-arity
-         calls as an excluded event; instruction lemmas for `step_ng`;
+         calls and == on two functions as excluded events; results without a value (errors, excluded
+         events) carry the state in which they arose; instruction lemmas for `step_ng`; runs of the
+         collection-free machine with BOUNDED excluded events (`exclL Bd`);
+     J0  Sem's heap only grows, for every program (`eval_grows_all`);
      J3  the collection-free machine simulates the evaluator on the compiled code (exact states);
-     J4  Sem.v agrees with the evaluator under the policy "a literal allocates a fresh box" - the two
-         heaps are then EQUAL, only function values differ (closure number vs entry point);
-     J5  the function literals of a program have pairwise different entry points;
-     J6  the evaluator under the policy "fresh box" against the evaluator under the policy "constant
-         pool" (float literal = the pooled box, string literal = a copy of the pooled box): the two
-         heaps are related through a relation R on locations that grows (H3's `HR`), values by
-         `val_rel4`: a logical-relations proof over ONE definition;
-     J7  initial states, the run, dropping the collector, compile_correct_F4 and its corollaries.
+         the evaluator's heap only grows (`yeval_grows`);
+     J4  Sem.v agrees with the evaluator under the policy "a literal allocates a fresh box": the two
+         heaps have the SAME locations (`hsame`), only function values differ (closure number vs
+         entry point, also inside arrays);
+     J5  the function literals of a program have pairwise different entry points; `fun_table`;
+     J6  the value-level functions under a relation R on locations that grows (H3 redone with
+         function values: `HRm`, `vrm`);
+     J7  the evaluator under the policy "fresh box" against the evaluator under the policy "constant
+         pool" (float literal = the pooled box, string literal = a copy of the pooled box): a
+         logical-relations proof over ONE definition (`ml_agree`), with the address-space bound
+         carried backwards from the result (`ybd`);
+     J8  the constant pool along the compilation (`compile_pool_facts4`, `lits_good4`), the static
+         pass (`static_accepts_F4`);
+     J9  initial states, the run on the collection-free machine, the transfer to the machine,
+         dropping the collector (`graph_final`), compile_correct_F4;
+     J10 corollaries and examples.
    The relation between Sem locations and machine locations (`loc_rel`, below) therefore relates
    Sem's boxes to boxes of the COLLECTION-FREE heap; its restriction to the boxes reachable from the
-   machine's roots is a relation to the real heap (`reachable_never_reclaimed_source`), and at the
-   end of a run its restriction to the result graph is the relation of `obs_eq4`.
+   machine's roots is a relation to the real heap, and at the end of a run its restriction to the
+   result graph is the relation of `obs_eq4` (`reachable_never_reclaimed_source`).
    =========================================================================================== *)
 From NL.Model Require Export VM.
 From NL.Spec Require Export Sem Fragment Fragment2 Fragment2h Fragment3.
